@@ -109,6 +109,20 @@ Theorem write_model_satisfies_spec :
     spec_write_ok cfg ty k script (obs_of (write cfg ty k jit script)) = true.
 Proof. exact C20_proofs.write_model_satisfies_spec_lemma. Qed.
 
+(* what a pass of that checker on OBSERVED values means: every received body decoded to the message of the call with
+   the headers of its type and attempt number, only retryable answers were followed by another request, the retry
+   budget was respected, and nil was returned only after a 2xx *)
+Theorem spec_write_ok_meaning :
+  forall cfg ty k script ob t,
+    validate ty = Some t -> marshals k = true -> spec_write_ok cfg ty k script ob = true ->
+    let seen := map fst (firstn (length (ob_reqs ob)) script) in
+    (forall j q, nth_error (ob_reqs ob) j = Some q ->
+       oq_body_ok q = true /\ spec_headers_ok t (Z.of_nat j) (oq q) = true) /\
+    (forall i o, nth_error seen i = Some o -> (S i < length seen)%nat -> spec_retryable cfg o = true) /\
+    (0 < c_max_retries cfg -> Z.of_nat (length (ob_reqs ob)) <= c_max_retries cfg + 1) /\
+    (ob_err ob = WNil -> exists last tl, rev seen = last :: tl /\ is_2xx last = true).
+Proof. exact C20_proofs.spec_write_ok_meaning_lemma. Qed.
+
 (* ---------- client: pooled buffers ---------- *)
 
 (* for any number of calls, any interleaving at the granularity Get / marshal / compress / send / Put, and any
